@@ -78,6 +78,10 @@ ROUTES = {
     'radd-empty': lambda s, tc, tok: tc() + s,
     'add-str': lambda s, tc, tok: s + '0b1',
     'radd-str': lambda s, tc, tok: '0b1' + s,
+    'radd-long-str': lambda s, tc, tok: ('0b' + '10' * (len(s) // 2 + 1)) + s,          # the promoted left operand is the longer one
+    'radd-long-bytes': lambda s, tc, tok: (b'\xa5' * (len(s) // 8 + 1)) + s,
+    'radd-long-list': lambda s, tc, tok: ([1, 0] * (len(s) // 2 + 1)) + s,
+    'add-long-str': lambda s, tc, tok: s + ('0b' + '10' * (len(s) // 2 + 1)),
     'mul1': lambda s, tc, tok: s * 1,
     'rmul2': lambda s, tc, tok: 2 * s,
     'and-self': lambda s, tc, tok: s & s,
